@@ -25,7 +25,7 @@ Explains(r) ==
                        /\ NStepOK(DimOf(r.ty), cur, r.op, r.res, r.err, r.post)
     [] OTHER -> FALSE
 
-FullIterKinds == {"NIterAll", "NIotaAll", "NSapyb", "NXapyb", "NXapybM", "NXapybSM", "NSapybM"}
+FullIterKinds == {"NIterAll", "NIotaAll", "NSapyb", "NXapyb", "NXapybM", "NXapybSM", "NSapybM", "NCopyTo", "NFillFrom"}
 Classify(r) ==
   IF r.e # "Step" \/ cur = None \/ r.op.k \notin NKinds THEN "new"
   ELSE LET st == NStateOfObs(cur)
